@@ -139,6 +139,11 @@ class Simulation:
         # First look for a value already cached
         cached_array = holder.get_array(period)
         if cached_array is not None:
+            # A value marked for deletion was derived from a spiral default:
+            # whatever is being computed from it must be discarded as well.
+            if Cache(variable_name, period) in self.invalidated_caches:
+                for frame in self.tracer.stack:
+                    self.invalidate_cache_entry(str(frame["name"]), frame["period"])
             return cached_array
 
         array = None
